@@ -31,7 +31,7 @@ Step ==
                 i3 == P("I3", errs = {} \/ (UnicastDst(r) /\ UnicastSrc(r)))
                 i4 == P("I4", errs = {} \/ ~IsError(r))
                 i5 == P("I5", ~(IsTcp(r) /\ ~UnicastDst(r)) \/ ~tcpChanged)
-                k3 == P("K3", ~(r.c \in {"ip-hdr", "l4"}) \/ (r.udp = 0 /\ ~tcpChanged /\ ks = {}))
+                k3 == P("K3", ~(r.c \in {"ip-hdr", "ip-opt", "l4"}) \/ (r.udp = 0 /\ ~tcpChanged /\ ks = {}))
                 \* a corrupted solicitation / query draws no advertisement / report either
                 k3q == P("K3", ~(IsQuery(r) /\ r.c \in {"ip-hdr", "l4"}) \/ Kinds(r.out) \cap {"ndisc", "mld", "igmp"} = {})
                 k4 == P("K4", ~(r.c = "udp0" /\ r.v = 6) \/ (r.udp = 0 /\ ks = {}))
@@ -40,7 +40,7 @@ Step ==
             IN /\ viol' = IF Len(viol) >= 60 THEN viol ELSE viol \o i1 \o i2 \o i3 \o i4 \o i5 \o k3 \o k3q \o k4 \o k2 \o e3
                /\ hits' = [hits EXCEPT !["I1"] = @ + (IF Addressed(r) THEN 0 ELSE 1), !["I2"] = @ + (IF r.udp > 0 \/ tcpChanged THEN 1 ELSE 0),
                                        !["I3"] = @ + (IF UnicastDst(r) /\ UnicastSrc(r) THEN 0 ELSE 1), !["I4"] = @ + (IF IsError(r) THEN 1 ELSE 0),
-                                       !["I5"] = @ + (IF IsTcp(r) /\ ~UnicastDst(r) THEN 1 ELSE 0), !["K3"] = @ + (IF r.c \in {"ip-hdr", "l4"} THEN 1 ELSE 0),
+                                       !["I5"] = @ + (IF IsTcp(r) /\ ~UnicastDst(r) THEN 1 ELSE 0), !["K3"] = @ + (IF r.c \in {"ip-hdr", "ip-opt", "l4"} THEN 1 ELSE 0),
                                        !["K4"] = @ + (IF r.c = "udp0" THEN 1 ELSE 0), !["K2"] = @ + Len(r.out), !["E3"] = @ + Len(r.out)]
                /\ UNCHANGED <<run, nruns>>
        [] r.ev = "panic" -> /\ viol' = Append(viol, <<l, "PANIC", r.msg>>) /\ hits' = [hits EXCEPT !["PANIC"] = @ + 1] /\ UNCHANGED <<run, nruns>>
